@@ -55,6 +55,7 @@ type Engine struct {
 	usedLemmas   map[string]bool
 	liftDone     map[string]bool // lifted lemmas whose obligations were generated in this run
 	orphans      map[string]string // contracts whose function no longer exists
+	localsSnap   map[string][]string // declared names per function as of the tree the contracts were written for (locals.json)
 	curProp      string            // property being checked ("": all tagged clauses active)
 }
 
